@@ -24,7 +24,7 @@ def nabs(x):
 
 MANIFEST = dict(
     technique='explicit-state exploration of all add_hypothese histories on the real confusion-network code; semantic language-inclusion and weight-conservation oracles per transition',
-    text='Bounded exhaustive: every history of up to 3 (quick) / 4 (thorough) add_hypothese events over 15 strings x 2 scores (27 930 / 837 930 histories), each step checked for language inclusion (decided by subset construction, not by re-running the algorithm), readability of the new hypothesis in order, conservation of weight through an order-preserving embedding, and the final network for normalisation, complete/sorted path enumeration and single-hypothesis read-back; produce_cn_from_boh on bags with and without LM scores. Added sub-sweeps: one empty start list shared by all cases of a worker, histories containing hypotheses with scores 1e-18 and 1e-200 (absorbed by 1.0 / underflowing products), and hypotheses of 130-300 symbols. Normalisation must keep every arc (weights down to 1e-310 next to 1.0); hypotheses with single, double, leading and trailing spaces.',
+    text='Bounded exhaustive: every history of up to 3 (quick) / 4 (thorough) add_hypothese events over 15 strings x 2 scores (27 930 / 837 930 histories), each step checked for language inclusion (decided by subset construction, not by re-running the algorithm), readability of the new hypothesis in order, conservation of weight through an order-preserving embedding, and the final network for normalisation, complete/sorted path enumeration and single-hypothesis read-back; produce_cn_from_boh on bags with and without LM scores. Added sub-sweeps: one empty start list shared by all cases of a worker, histories containing hypotheses with scores 1e-18 and 1e-200 (absorbed by 1.0 / underflowing products), and hypotheses of 130-300 symbols. Normalisation must keep every arc (weights down to 1e-310 next to 1.0); hypotheses with single, double, leading and trailing spaces. Wave 10: bags mixing hypotheses with and without an LM score; every single failing array allocation while a hypothesis is added.',
     note='Alphabet {a,b}, hypotheses up to length 3, histories up to depth 4; scores from {1.0,0.5}.',
     ref='3/C14')
 
